@@ -7,15 +7,15 @@
    in that state. *)
 EXTENDS MC_SelectorMap, TLCExt, Json, IOUtils
 
-ASSUME TLCSet(1, 0)
+ASSUME TLCSet(1, 0)   \* id of the last exported behaviour
 
 SimDepth == 14
 
 ObsOf(s) == [h \in s.alive |-> Observe(s.tree[h], s.term[h], s.flat[h])]
 
 ExportConstraint ==
-  IF TLCGet("level") = SimDepth
-  THEN /\ TLCSet(1, TLCGet(1) + 1)
+  IF TLCGet("level") = SimDepth /\ TLCGet("stats").traces # TLCGet(1)
+  THEN /\ TLCSet(1, TLCGet("stats").traces)
        /\ JsonSerialize(IOEnv.OUT_DIR \o "/b" \o ToString(TLCGet(1)) \o ".json",
                         [i \in 1..Len(Trace) |-> [st |-> Trace[i], obs |-> ObsOf(Trace[i])]])
   ELSE TRUE
